@@ -48,13 +48,13 @@ CHECKS.update({
     "C09": ("E2-stream", "exploration", "runtime monitor: independent gzip member reader (own header/trailer/CRC-32, raw inflate) over recorded histories, streaming inflate after every flush; Python zlib re-check in thorough",
             "Every history's delivered stream must parse as exactly one gzip member equal to the bytes written, and after every flush a streaming inflater over the frames so far must reproduce everything written before it; levels 1..9, chunk sizes 1..64 KiB, incompressible / zero / text payloads up to 200 KiB per write.",
             "Inflate is flate2's raw Decompress (different code path from the encoder); thorough tier re-checks recorded streams with Python's zlib.", "5/C09"),
-    "C10": ("E3-sched", "exploration", "runtime monitor over schedules: real chunker on two threads under a token-passing delay injector at the instrumented-mutex hooks (stateless DFS over delay decisions), lost-wake-up diagnosis at operation return, free-running stress; TSan + Miri legs",
+    "C10": ("E3-sched + E2-stream", "exploration", "runtime monitor over schedules: real chunker on two threads under a token-passing delay injector at the instrumented-mutex hooks (stateless DFS over delay decisions), lost-wake-up diagnosis at operation return, free-running stress, deep-backlog programs; sequential park-then-ready waker oracle over the E2 history space; TSan + Miri legs",
             "All schedules (at lock-acquisition / unlock->wake / Pending granularity, <= 2 spurious polls, 3 waker policies) of all producer programs of <= 2 operations (<= 3 in thorough) are executed against the real code; longer programs are capped, preemption-bounded, random or free-running. A parked, un-woken consumer for which a poll would return Ready, a deadlock, a Pending after the writer is gone, or a clean end before everything was delivered is a violation.",
             "Critical sections are atomic for the scheduler (they are under the code's own lock); only the most recent poll's waker counts as live.", "5/C10"),
     "C11": ("E2-stream + E3-sched", "fault_enumeration", "fault injection (abort / body drop at every position of every short op sequence; abort programs under the scheduler; counting-allocator heap monitor)",
             "Abort or body drop is inserted at every position of every op sequence up to length 3 (4 in thorough), raw and gzip; abort programs run under all schedules (capped); a counting allocator checks that >= 1 MiB of queued chunks is released once the body is dropped and that a writer without a consumer does not grow.",
             "'Chunk-completing' is modelled from the configured chunk size; flush with nothing pending on a raw writer is not judged.", "5/C11"),
-    "C12": ("E1 + E2 + E3", "exploration", "runtime monitor: size_hint()/is_end_stream() sampled before every poll in all engines, judged against the total known at the clean end",
+    "C12": ("E1 + E2 + E3", "exploration", "runtime monitor: size_hint()/is_end_stream() sampled before every poll in all engines, and in a tight loop on one thread while another thread ends the writer (free-running hint-spin trials), judged against the total known at the clean end",
             "About 40 million hint samples per quick run across serve bodies (Once / ExactLen / multipart), streaming bodies (raw, gzip, abort), scheduler runs and all Body::from conversions; lower <= remaining <= upper, exactness where promised, nothing after is_end_stream() = true.",
             "Range of the hint judged only for bodies that end cleanly, as the statement conditions.", "5/C12"),
     "C16": ("E4-negot", "exploration", "runtime oracle: independent RFC 7231 5.3.4 evaluator over the exhaustive list space; libFuzzer+ASan and Miri legs",
@@ -109,7 +109,7 @@ def main():
         },
         "engines": [
             {"name": "E1-serve", "path": "harness/src/e1.rs", "serves_properties": ["C01", "C02", "C03", "C04", "C05", "C06", "C07", "C12", "C13", "C14", "C15", "C20"], "kind_free_text": "drives http_serve::serve with a monitored harness entity; body monitor"},
-            {"name": "E2-stream", "path": "harness/src/e2.rs", "serves_properties": ["C08", "C09", "C11", "C12", "C17", "C20"], "kind_free_text": "streaming_body op sequences against a sequential model"},
+            {"name": "E2-stream", "path": "harness/src/e2.rs", "serves_properties": ["C08", "C09", "C10", "C11", "C12", "C17", "C20"], "kind_free_text": "streaming_body op sequences against a sequential model"},
             {"name": "E3-sched", "path": "harness/src/e3.rs", "serves_properties": ["C10", "C11", "C12", "C20"], "kind_free_text": "producer/consumer threads under a hook-driven deterministic scheduler and free-running stress"},
             {"name": "E4-negot", "path": "harness/src/p_negot.rs", "serves_properties": ["C16"], "kind_free_text": "should_gzip against an RFC 7231 model"},
             {"name": "E5-file", "path": "harness/src/p_file.rs", "serves_properties": ["C18"], "kind_free_text": "ChunkedReadFile on real temporary files, truncation and short-read injection"},
